@@ -125,6 +125,28 @@ Theorem C15_stops_on_error :
 Proof. exact loop_fail_prefix. Qed.
 Print Assumptions C15_stops_on_error.
 
+(* Tags / Repositories with ANY callback behaviour: the listing ends Done having delivered
+   the whole suffix, or with the callback's error having delivered a prefix of it *)
+Theorem C15_exactly_once_any_callback :
+  forall (L : list item) (cap : nat) (ds : nat -> decision)
+         (render : nat -> url -> url -> str) (trailer : nat -> str)
+         (resolve : url -> str -> option url) (c : cfg) (cb_fail : nat -> bool)
+         (path last0 : str) (fuel : nat),
+    c_kind c <> KReferrers ->
+    NoDup (map fst L) -> (forall it, In it L -> fst it <> []) ->
+    (forall i base x, In x (map fst L) ->
+       contains c_gt (render i base (link_target (ds i) base x)) = false) ->
+    (forall i base x, In x (map fst L) ->
+       resolve base (render i base (link_target (ds i) base x)) = Some (link_target (ds i) base x)) ->
+    (forall i, (Z.of_N (d_doc_len (ds i)) <= eff_limit (c_limit c))%Z) ->
+    (length (after last0 L) < fuel)%nat ->
+    let t := loop (reg_serve (c_kind c) L cap ds render trailer) resolve cb_fail c
+                  fuel 0 0 (mkUrl path []) last0 in
+    (t_out t = Done /\ concat (t_pages t) = after last0 L) \/
+    (t_out t = ErrCallback /\ exists rest', after last0 L = concat (t_pages t) ++ rest').
+Proof. exact listing_prefix_any_callback. Qed.
+Print Assumptions C15_exactly_once_any_callback.
+
 (* the error is ErrCallback exactly when the last invoked callback failed; no callback is
    invoked after a failing one *)
 Theorem C15_callback_discipline :
